@@ -136,6 +136,9 @@ fn edits(base: &Value) -> Vec<Edit> {
     if build_stone6() {
         out.push(Edit::Friendly(1));
         out.push(Edit::Friendly(-1));
+        out.push(Edit::Friendly(64));
+        out.push(Edit::Friendly(128));
+        out.push(Edit::Friendly(250));
     }
     out
 }
@@ -176,7 +179,13 @@ fn apply_edit(base: &Value, nf: &Felt, e: &Edit) -> Option<(Value, Felt)> {
         Edit::DeleteHeader(i) => {
             v["continuous_page_headers"].as_array_mut()?.remove(*i);
         }
-        Edit::Friendly(d) => f = if *d > 0 { f + Felt::ONE } else { f - Felt::ONE },
+        Edit::Friendly(d) => {
+            f = match *d {
+                1 => f + Felt::ONE,
+                -1 => f - Felt::ONE,
+                k => f + crate::kit::b2f(&crate::kit::pow2(k as u32)),
+            }
+        }
     }
     Some((v, f))
 }
